@@ -12,6 +12,7 @@ import (
 	"time"
 
 	"github.com/TarsCloud/TarsGo/tars"
+	"github.com/TarsCloud/TarsGo/tars/util/gtime"
 
 	"github.com/TarsCloud/TarsGo/tars/util/rogger"
 	"github.com/TarsCloud/TarsGo/tars/util/vhook"
@@ -63,6 +64,7 @@ func logPanicChild(args []string) error {
 	path := fs.String("file", "", "absolute path of the file the writer appends to")
 	pauseUs := fs.Int("pause-us", 100, "writer delay per entry")
 	text := fs.Bool("text", false, "log through Infof instead of WriteLog")
+	via := fs.String("via", "checkpanic", "how the process ends: checkpanic (a panic under tars.CheckPanic) | runinit (tars.Run panics while it reads a configuration with an unusable TLS key)")
 	fs.Parse(args)
 	f, err := os.OpenFile(*path, os.O_CREATE|os.O_WRONLY|os.O_APPEND, 0644)
 	if err != nil {
@@ -72,8 +74,7 @@ func logPanicChild(args []string) error {
 	rogger.VerifSetFlushTimeout(10 * time.Second)
 	lg := rogger.GetLogger("verifpanic")
 	lg.SetWriter(&fileWriter{f: f, pause: time.Duration(*pauseUs) * time.Microsecond})
-	func() {
-		defer tars.CheckPanic() // what every servant goroutine of the framework does: dump, flush the log, exit
+	logAll := func() {
 		for i := 1; i <= *n; i++ {
 			if *text {
 				lg.Infof("%d %d", 1, i)
@@ -81,6 +82,19 @@ func logPanicChild(args []string) error {
 				lg.WriteLog([]byte(fmt.Sprintf("%d %d", 1, i)))
 			}
 		}
+	}
+	if *via == "runinit" {
+		// the application reads its configuration inside Run: an unusable TLS key makes it panic there, and the panic leaves Run
+		cfg := *path + ".conf"
+		os.WriteFile(cfg, []byte("<tars>\n<application>\n<server>\napp=Verif\nserver=LogPanic\nlocalip=127.0.0.1\nkey=/nonexistent/verif.key\ncert=/nonexistent/verif.crt\n</server>\n</application>\n</tars>\n"), 0644)
+		tars.ServerConfigPath = cfg
+		logAll()
+		tars.Run()
+		return fmt.Errorf("tars.Run returned")
+	}
+	func() {
+		defer tars.CheckPanic() // what every servant goroutine of the framework does: dump, flush the log, exit
+		logAll()
 		panic("verif: boom")
 	}()
 	return fmt.Errorf("CheckPanic returned")
@@ -91,15 +105,16 @@ func logPanicChild(args []string) error {
 func panicScenario(rng *rand.Rand, dir string, sc int) ([]tr.Ev, error) {
 	n := 5 + rng.Intn(36)
 	path := fmt.Sprintf("%s/panic-%d.log", dir, sc)
+	via := []string{"checkpanic", "runinit"}[sc/25%2]
 	cmd := exec.Command(os.Args[0], "logpanic-child", "-n", fmt.Sprint(n), "-file", path, "-pause-us", fmt.Sprint(50+rng.Intn(400)),
-		fmt.Sprintf("-text=%v", rng.Intn(2) == 0))
+		fmt.Sprintf("-text=%v", rng.Intn(2) == 0), "-via", via)
 	cmd.Dir = dir
 	out, _ := cmd.CombinedOutput()
 	if cmd.ProcessState == nil || cmd.ProcessState.ExitCode() == 0 || cmd.ProcessState.ExitCode() == 3 {
 		return nil, fmt.Errorf("panic child did not exit through CheckPanic: %s", string(out))
 	}
 	var evs []tr.Ev
-	evs = append(evs, tr.Ev{"e": "Config", "k": 10000, "kind": "panic-exit"})
+	evs = append(evs, tr.Ev{"e": "Config", "k": 10000, "kind": "panic-exit", "via": via})
 	for i := 1; i <= n; i++ {
 		evs = append(evs, tr.Ev{"e": "LogCall", "g": 1, "i": i}, tr.Ev{"e": "LogRet", "g": 1, "i": i})
 	}
@@ -113,7 +128,58 @@ func panicScenario(rng *rand.Rand, dir string, sc int) ([]tr.Ev, error) {
 		f.Close()
 	}
 	os.Remove(path)
+	os.Remove(path + ".conf")
 	evs = append(evs, tr.Ev{"e": "FlushRet"}, tr.Ev{"e": "Reset"})
+	return evs, nil
+}
+
+// fileScenario: the framework's own size-rolled file writer.  Three entries, a flush, more than ten seconds pass (the writer
+// re-opens its file then), three more entries, a flush.  What the file holds afterwards is what was written: every entry
+// once, whole, in order.  Two runs of the trace specification (one per flusher), the writes taken from the file.
+func fileScenario(rng *rand.Rand, dir string, sc int, lg *rogger.Logger, restore rogger.LogWriter) ([]tr.Ev, error) {
+	name := fmt.Sprintf("roll-%d", sc)
+	fw := rogger.NewRollFileWriter(dir, name, 3, 10)
+	lg.SetWriter(fw)
+	defer lg.SetWriter(restore)
+	n1, n2 := 2+rng.Intn(3), 2+rng.Intn(3)
+	phase := func(g, n int) {
+		rogger.VerifSetQueueCap(10000)
+		rogger.VerifResetFlusher()
+		for i := 1; i <= n; i++ {
+			lg.Infof("%d %d", g, i)
+		}
+		rogger.FlushLogger()
+	}
+	phase(1, n1)
+	gtime.CurrUnixTime += 11 // the writer re-opens its file when it is older than ten seconds
+	phase(2, n2)
+	data, err := os.ReadFile(dir + "/" + name + ".log")
+	if err != nil {
+		return nil, err
+	}
+	var evs []tr.Ev
+	for g, n := range map[int]int{1: n1, 2: n2} {
+		_ = g
+		_ = n
+	}
+	for _, gn := range [][2]int{{1, n1}, {2, n2}} {
+		g, n := gn[0], gn[1]
+		evs = append(evs, tr.Ev{"e": "Config", "k": 10000, "kind": "roll-file-writer"})
+		for i := 1; i <= n; i++ {
+			evs = append(evs, tr.Ev{"e": "LogCall", "g": g, "i": i}, tr.Ev{"e": "LogRet", "g": g, "i": i})
+		}
+		evs = append(evs, tr.Ev{"e": "FlushCall"})
+		for _, line := range strings.Split(string(data), "\n") {
+			if strings.TrimSpace(line) == "" {
+				continue
+			}
+			lgid, li := entryOf([]byte(line))
+			if lgid == g || (lgid != 1 && lgid != 2 && g == 2) { // a torn line belongs to nobody: shown to the second run
+				evs = append(evs, tr.Ev{"e": "Write", "g": lgid, "i": li, "n": len(line)})
+			}
+		}
+		evs = append(evs, tr.Ev{"e": "FlushRet"}, tr.Ev{"e": "Reset"})
+	}
 	return evs, nil
 }
 
@@ -170,6 +236,16 @@ func logflushTrace(args []string) error {
 	}
 	lost := 0
 	for sc := 0; sc < *num; sc++ {
+		if sc%25 == 12 { // the framework's file writer across a re-open
+			evs, err := fileScenario(rng, scratch, sc, lg, rw)
+			if err != nil {
+				return err
+			}
+			for _, ev := range evs {
+				w.Write(ev)
+			}
+			continue
+		}
 		if sc%25 == 24 { // the panic exit of a real process
 			evs, err := panicScenario(rng, scratch, sc)
 			if err != nil {
@@ -187,16 +263,20 @@ func logflushTrace(args []string) error {
 			qcap = 2 // the queue at its boundary: logging calls block until the flusher makes room
 		}
 		rogger.VerifSetQueueCap(qcap)
-		text := rng.Intn(2) == 0 // the formatted text path (Infof -> writeLine) or the raw one (WriteLog)
-		rw.prefix = text && rng.Intn(2) == 0
-		rec.Emit("Config", "k", qcap, "kind", fmt.Sprintf("shape%d text=%v prefix=%v", shape, text, rw.prefix))
+		api := rng.Intn(3) // 0: WriteLog (raw), 1: Infof (formatted text path through writeLine), 2: Trace
+		text := api == 1
+		rw.prefix = api != 0 && rng.Intn(2) == 0
+		rec.Emit("Config", "k", qcap, "kind", fmt.Sprintf("shape%d api=%d prefix=%v", shape, api, rw.prefix))
 		rogger.VerifResetFlusher()
 		ng := 1 + rng.Intn(3)
 		logOne := func(gid, i int) {
 			rec.Emit("LogCall", "g", gid, "i", i)
-			if text {
+			switch {
+			case text:
 				lg.Infof("%d %d", gid, i)
-			} else {
+			case api == 2:
+				lg.Trace(fmt.Sprintf("%d %d", gid, i))
+			default:
 				lg.WriteLog([]byte(fmt.Sprintf("%d %d", gid, i)))
 			}
 			rec.Emit("LogRet", "g", gid, "i", i)
